@@ -701,5 +701,9 @@ for _cls, (_n, _sh) in {"Circuit": ((40, 600), (6, 12)), "CircuitDense": ((40, 5
                         "CircuitPermMPS": ((40, 500), (2, 6)), "CircuitMPSLazy": ((40, 500), (2, 6))}.items():
     SUBCHECKS.append(SubCheck("history_" + _cls, machine=make_spec(_cls), examples=_n, shards=_sh, soft_budget=(90.0, 900.0),
                               needs_deps=_cls in ("Circuit", "CircuitDense"),  # qubit ordering for sampling uses networkx
+                              fuzz={"instrument": ["quimb.tensor.circuit.core:CircuitBase", "quimb.tensor.circuit.exact:Circuit",
+                                                   "quimb.tensor.circuit.mps:CircuitMPS", "quimb.tensor.circuit.mps:CircuitPermMPS",
+                                                   "quimb.tensor.circuit.mps:CircuitMPSLazy", "quimb.tensor.circuit.gates:Gate"],
+                                    "shards": 3, "runs": 10000, "max_seconds": 600},
                               rule=f"interleaved gate/parameter/copy/query histories on {_cls}; model state vector in lock-step; nt: "
                                    "query-update-query pattern or SWAP/controlled/3-qubit gate on an MPS simulator"))
